@@ -505,6 +505,11 @@ func RuleAddrPatterns(r *Report, p *Program) {
 		if rs.Default == nil {
 			want = 1
 		}
+		if want == 1 && len(pats) == 2 {
+			// a parser shared between the roles carries the port-less pattern too; whether this role can reach
+			// that branch is AD1's question (text without a port must be rejected): the with-port pattern is decided here
+			pats = pats[:1]
+		}
 		if len(pats) != want {
 			bad = fmt.Sprintf("%d constant pre-filter patterns, expected %d", len(pats), want)
 		} else {
